@@ -467,4 +467,125 @@ theorem queueHasActorSeq_iff {q : List Change} {c : Change} :
     queueHasActorSeq q c = true ↔ (c.actor, c.seq) ∈ actorSeqs q := by
   simp only [queueHasActorSeq, List.any_eq_true, Bool.and_eq_true, beq_iff_eq, mem_actorSeqs]
 
+/-! ## §4 `remove_actor_branch_from` -/
+
+/-- the hashes `remove_actor_branch_from q actor seq` has to remove: queued changes of `actor` with
+    sequence number ≥ `seq` and, transitively, queued changes depending on one of them -/
+inductive InBranch (q : List Change) (actor : Bytes) (seq : Nat) : Hash → Prop
+  | base {c : Change} : c ∈ q → c.actor = actor → seq ≤ c.seq → InBranch q actor seq c.hash
+  | step {c : Change} {dep : Hash} :
+      InBranch q actor seq dep → c ∈ q → dep ∈ c.deps → InBranch q actor seq c.hash
+
+theorem closeRemoved_spec (q : List Change) (a : Bytes) (n : Nat) :
+    ∀ (fuel : Nat) (removed : List Hash),
+      (q.filter (fun c => !removed.contains c.hash)).length ≤ fuel →
+      (∀ h ∈ removed, InBranch q a n h) →
+      (∀ h ∈ removed, h ∈ closeRemoved q fuel removed) ∧
+      (∀ h ∈ closeRemoved q fuel removed, InBranch q a n h) ∧
+      (∀ c ∈ q, c.hash ∉ closeRemoved q fuel removed →
+        ∀ dep ∈ c.deps, dep ∉ closeRemoved q fuel removed) := by
+  intro fuel
+  induction fuel with
+  | zero =>
+    intro removed hlen hin
+    simp only [closeRemoved]
+    refine ⟨fun h hh => hh, hin, ?_⟩
+    intro c hc hnot
+    have hnil : q.filter (fun c => !removed.contains c.hash) = [] :=
+      List.eq_nil_of_length_eq_zero (Nat.le_zero.mp hlen)
+    have := List.filter_eq_nil_iff.mp hnil c hc
+    simp only [Bool.not_eq_true', Bool.not_eq_false, List.contains_iff_mem] at this
+    exact (hnot this).elim
+  | succ fuel ih =>
+    intro removed hlen hin
+    simp only [closeRemoved]
+    split
+    · rename_i hemp
+      refine ⟨fun h hh => hh, hin, ?_⟩
+      intro c hc hnot dep hd hdr
+      have hnil := List.isEmpty_iff.mp hemp
+      rw [List.map_eq_nil_iff] at hnil
+      have := List.filter_eq_nil_iff.mp hnil c hc
+      apply this
+      simp only [Bool.and_eq_true, Bool.not_eq_true', List.any_eq_true, List.contains_iff_mem]
+      refine ⟨?_, dep, hd, hdr⟩
+      cases hcc : removed.contains c.hash
+      · rfl
+      · exact (hnot (List.contains_iff_mem.mp hcc)).elim
+    · rename_i hne
+      generalize hmore : (q.filter (fun c => !removed.contains c.hash &&
+        c.deps.any (fun d => removed.contains d))).map (·.hash) = more at hne
+      have hmem : ∀ h ∈ more, ∃ c ∈ q, c.hash = h ∧ c.hash ∉ removed ∧ ∃ dep ∈ c.deps, dep ∈ removed := by
+        intro h hh
+        rw [← hmore] at hh
+        simp only [List.mem_map, List.mem_filter, Bool.and_eq_true, Bool.not_eq_true',
+          List.any_eq_true, List.contains_iff_mem] at hh
+        obtain ⟨c, ⟨hc, hnr, dep, hd, hdr⟩, rfl⟩ := hh
+        refine ⟨c, hc, rfl, ?_, dep, hd, hdr⟩
+        intro hm
+        rw [List.contains_iff_mem.mpr hm] at hnr; cases hnr
+      have hin' : ∀ h ∈ removed ++ more, InBranch q a n h := by
+        intro h hh
+        rcases List.mem_append.mp hh with hh | hh
+        · exact hin h hh
+        · obtain ⟨c, hc, rfl, _, dep, hd, hdr⟩ := hmem h hh
+          exact .step (hin dep hdr) hc hd
+      have hlen' : (q.filter (fun c => !(removed ++ more).contains c.hash)).length ≤ fuel := by
+        have hex : ∃ h, h ∈ more := by
+          cases more with
+          | nil => simp at hne
+          | cons h t => exact ⟨h, List.mem_cons_self⟩
+        obtain ⟨h, hh⟩ := hex
+        obtain ⟨c, hc, rfl, hnr, _⟩ := hmem h hh
+        have := filter_length_lt (fun c => !removed.contains c.hash)
+          (fun c => !(removed ++ more).contains c.hash) q
+          (by
+            intro x _ hx
+            simp only [Bool.not_eq_true', List.contains_eq_mem, List.mem_append,
+              decide_eq_false_iff_not, not_or] at hx ⊢
+            exact hx.1)
+          ⟨c, hc, by simp [hnr], by simp [hh]⟩
+        omega
+      obtain ⟨h1, h2, h3⟩ := ih (removed ++ more) hlen' hin'
+      exact ⟨fun h hh => h1 h (List.mem_append_left _ hh), h2, h3⟩
+
+/-- **C38 (third sentence)**: `remove_actor_branch_from` removes exactly the conflicting branch:
+    the queued changes of the actor at or after the claimed sequence number and everything queued
+    that transitively depends on them; every other queued change stays, in order. -/
+theorem mem_removeActorBranchFrom {q : List Change} {a : Bytes} {n : Nat} {x : Change} :
+    x ∈ removeActorBranchFrom q a n ↔ x ∈ q ∧ ¬ InBranch q a n x.hash := by
+  unfold removeActorBranchFrom
+  generalize hr0 : (q.filter (fun c => c.actor == a && decide (c.seq ≥ n))).map (·.hash) = removed0
+  have hin0 : ∀ h ∈ removed0, InBranch q a n h := by
+    intro h hh
+    rw [← hr0] at hh
+    simp only [List.mem_map, List.mem_filter, Bool.and_eq_true, beq_iff_eq, decide_eq_true_eq] at hh
+    obtain ⟨c, ⟨hc, ha, hs⟩, rfl⟩ := hh
+    exact .base hc ha hs
+  obtain ⟨h1, h2, h3⟩ := closeRemoved_spec q a n q.length removed0 (List.length_filter_le _ _) hin0
+  have hall : ∀ h, InBranch q a n h → h ∈ closeRemoved q q.length removed0 := by
+    intro h hb
+    induction hb with
+    | base hc ha hs =>
+      apply h1
+      rw [← hr0]
+      simp only [List.mem_map, List.mem_filter, Bool.and_eq_true, beq_iff_eq, decide_eq_true_eq]
+      exact ⟨_, ⟨hc, ha, hs⟩, rfl⟩
+    | @step c dep _ hc hd ih =>
+      by_cases hm : c.hash ∈ closeRemoved q q.length removed0
+      · exact hm
+      · exact (h3 c hc hm dep hd ih).elim
+  simp only [List.mem_filter, Bool.not_eq_true', List.contains_eq_mem, decide_eq_false_iff_not]
+  constructor
+  · rintro ⟨hx, hn⟩
+    exact ⟨hx, fun hb => hn (hall _ hb)⟩
+  · rintro ⟨hx, hn⟩
+    exact ⟨hx, fun hm => hn (h2 _ hm)⟩
+
+theorem removeActorBranchFrom_eq_filter (q : List Change) (a : Bytes) (n : Nat) :
+    ∃ p : Change → Bool, removeActorBranchFrom q a n = q.filter p := ⟨_, rfl⟩
+
+theorem removeActorBranchFrom_sublist (q : List Change) (a : Bytes) (n : Nat) :
+    (removeActorBranchFrom q a n).Sublist q := List.filter_sublist
+
 end AmVerif.Crdt
